@@ -391,9 +391,28 @@ RESERVED_HDRS = [
 ]
 
 
+# user keys that merely CONTAIN a reserved name (prefix / suffix / infix, any case), sorting before and after the module's own
+# entries, with int / str / list / nested values: ordinary user entries, to be kept and never taken for the file's own fields
+LOOKALIKE_HDRS = [
+    {"stamp_size": 32}, {"psf_size": 25, "bin_size": 0.5}, {"my_delim": ";", "x_dtype": "f8"},
+    {"A_SIZE": 77, "A_DELIM": ",", "A_DTYPE": [("q", "f8")]},                 # sort before _DTYPE / _SIZE
+    {"zz_size": 3, "zz_delim": "\t", "zz_dtype": "i4", "zz_version": "9"},     # sort after
+    {"_size_limit": 10 ** 6, "_DELIMITER": "|", "__dtype__": ["<i4"], "_nrows_total": 12, "_VERSIONS": ["1.0", "2.0"]},
+    {"x_Size": 5, "Delim": ",", "DTYPE": "S3", "has_fields_flag": True, "my_shape": (2, 2)},
+    {"SIZE": 4, "size": 9, "delim": None, "dtype": [("a", "i2")], "version": 1},
+    {"_SIZ": 1, "SIZE_": 2, "_size2": 3, "2_size": 4, "_delim_": ":"},
+]
+
+
 def gen_header(r):
-    if r.random() < 0.25:
+    k = r.random()
+    if k < 0.2:
         return r.choice(RESERVED_HDRS)
+    if k < 0.4:
+        h = dict(r.choice(LOOKALIKE_HDRS))
+        if r.random() < 0.3:
+            h.update(r.choice(RESERVED_HDRS))
+        return h
     if r.random() < 0.7:
         return r.choice(HDR_POOL)
     h = {}
@@ -579,6 +598,16 @@ def adversarial(r, textual, dl):
             b.reopen(); b.again(h=h); b.close()
         b.read(); b.fn(True, h=RESERVED_HDRS[(i + 3) % 7]); b.read(); b.reopen(); b.again(h=h); b.read("same"); b.close(); b.read()
         cs.append(b.case("adv:reserved-header:%d:%s" % (i, tag)))
+    # user keys that contain a reserved name: creation, append by reopening (function and object), reads through every path
+    for i, h in enumerate(LOOKALIKE_HDRS):
+        b = B()
+        if i % 2:
+            b.create(h=h); b.close()
+        else:
+            b.fn(False, h=h)
+        b.fn(True, h=LOOKALIKE_HDRS[(i + 1) % len(LOOKALIKE_HDRS)]); b.read(); b.reopen(); b.again(); b.read("same"); b.again(h=h)
+        b.close(); b.read(r.choice(["cls", "slice", "io", "hdr"])); b.fn(True); b.read()
+        cs.append(b.case("adv:lookalike-header:%d:%s" % (i, tag)))
     if SAME_HANDLE_READS:
         b = B(); b.fn(False, h={"same": 1}); b.reopen(); b.read("same"); b.again(); b.read("same"); b.again(); b.again(); b.read("same")
         b.close(); b.read(); cs.append(b.case("adv:same-handle-read:" + tag))
